@@ -157,7 +157,7 @@ pub fn random_setup_x(r: &mut Rng, backend: &str, tag: u64, extreme: bool) -> Se
         batch_period: if extreme { extreme_period(r) } else { *r.pick(&[60u64, 3600, 86_400]) },
         unbonding: if extreme { extreme_period(r) } else { *r.pick(&[120u64, 7200, 1_814_400]) },
         monitors: (0..r.below(3)).map(|i| addr(CHAIN_PREFIX, &format!("monitor{i}"), 20)).collect(),
-        sub: r.pick(&["stTIA", "milkTIA", "abcd"]).to_string(),
+        sub: r.pick(&["stTIA", "milkTIA", "abcd", "milkTIAxxxxxxxxxxxxxxxxxxxxxxxxxxxxxxxxxxxxxxxxxxxxxxxxx"]).to_string(),
         users: (0..nusers).map(|i| addr(CHAIN_PREFIX, &format!("user{i}"), 20)).collect(),
         native_users: (0..2).map(|i| addr(&np, &format!("nuser{i}"), 20)).collect(),
     }
@@ -376,9 +376,17 @@ impl WorldGen {
                 let mint_to = match self.r.below(10) {
                     0..=4 => "-".to_string(),
                     5 | 6 => hs(&self.user()),
-                    7 | 8 => {
+                    7 => {
                         let nu = self.s.native_users.clone();
                         hs(self.r.pick::<String>(&nu).as_str())
+                    }
+                    8 => {
+                        if self.r.chance(50) {
+                            hs(&self.s.staker.clone())
+                        } else {
+                            let nu = self.s.native_users.clone();
+                            hs(self.r.pick::<String>(&nu).as_str())
+                        }
                     }
                     _ => hs("garbage"),
                 };
@@ -404,7 +412,15 @@ impl WorldGen {
                 // unstake
                 let u = self.user();
                 let bal = self.w.chain.bal(&u, &lst);
-                let a = if bal == 0 || self.r.chance(5) { 1 + self.r.u128_upto(100) } else if self.r.chance(30) { bal } else { 1 + self.r.u128_upto(bal - 1) };
+                let a = if bal == 0 || self.r.chance(5) {
+                    1 + self.r.u128_upto(100)
+                } else if self.r.chance(12) {
+                    1 // a dust request: its share of a slashed batch may round to zero
+                } else if self.r.chance(30) {
+                    bal
+                } else {
+                    1 + self.r.u128_upto(bal - 1)
+                };
                 let txi = self.txi();
                 self.w.exec(txi, &u, vec![Coin::new(a, lst.clone())], "unstake");
             }
@@ -816,6 +832,12 @@ impl WorldGen {
         if let Some(b) = v.batches.iter().find(|b| b.status == milky_way::staking::BatchStatus::Received) {
             variants.push((d(7), format!("unstaked {}", b.id)));
         }
+        if let Some(b) = submitted {
+            // a payment that is not in the staked asset must not settle the batch
+            variants.push((format!("[{}:{}]", hs("uosmo"), 5), format!("unstaked {}", b.id)));
+            variants.push((format!("[{}:{}]", hs(&lst), 5), format!("unstaked {}", b.id)));
+            variants.push((format!("[{}:{}]", hs("utia"), 5), format!("unstaked {}", b.id)));
+        }
         // time far enough for every deadline
         let t = self.w.now_ns + 40 * 86_400 * 1_000_000_000;
         let mut withdraws: Vec<(String, String)> = vec![];
@@ -890,6 +912,109 @@ impl WorldGen {
             }
             self.w.ops.push("tx_abort".to_string());
             self.w.sim.deps.storage = snap;
+        }
+    }
+
+    /// A slashed batch with a dust request whose share rounds to zero: both requesters withdraw, the dust one twice.
+    pub fn scripted_dust(&mut self) {
+        let a = self.s.users[0].clone();
+        let b = self.s.users[1 % self.s.users.len()].clone();
+        let lst = self.s.lst();
+        let min = self.s.min.max(1000);
+        self.w.faucet(&a, D, 10_000_000 + min);
+        self.w.faucet(&b, D, 10_000 + min);
+        self.w.tick(1_000_000_000);
+        self.w.exec(Some(1), &a, vec![Coin::new(1_000_000u128 + min, D)], "stake - - -");
+        self.w.tick(1_000_000_000);
+        self.w.exec(Some(2), &b, vec![Coin::new(1_000u128 + min, D)], "stake - - -");
+        // settle the stake transfers so that the LST is with the users
+        let flying: Vec<u64> = self.w.chain.packets.values().filter(|p| p.state == crate::world::PState::Flight).map(|p| p.seq).collect();
+        for q in flying {
+            self.w.relay(q, "ack_ok");
+        }
+        let big = self.w.chain.bal(&a, &lst).min(900_000);
+        if big == 0 || self.w.chain.bal(&b, &lst) == 0 {
+            return;
+        }
+        self.w.tick(1_000_000_000);
+        self.w.exec(Some(3), &a, vec![Coin::new(big, lst.clone())], "unstake");
+        self.w.exec(Some(4), &b, vec![Coin::new(1u128, lst.clone())], "unstake");
+        let v = view(&self.w.sim);
+        let Some(pb) = v.batches.iter().find(|x| x.id == v.pending).cloned() else { return };
+        let now_s = self.w.now_ns / 1_000_000_000;
+        let due = pb.next_batch_action_time.unwrap_or(now_s);
+        if due > now_s {
+            self.w.tick((due - now_s + 1) * 1_000_000_000);
+        }
+        if !self.w.exec(Some(5), &a, vec![], "submit") {
+            return;
+        }
+        let v = view(&self.w.sim);
+        let Some(sb) = v.batches.iter().find(|x| x.id == pb.id).cloned() else { return };
+        let now_s = self.w.now_ns / 1_000_000_000;
+        let due = sb.next_batch_action_time.unwrap_or(now_s);
+        if due > now_s {
+            self.w.tick((due - now_s + 1) * 1_000_000_000);
+        }
+        // a slashed delivery: well below the batch's liquid total, so the share of the 1-unit request is zero
+        let exp = sb.expected_native_unstaked.map(|x| x.u128()).unwrap_or(0);
+        let short = (exp / 2).max(1).min(sb.batch_total_liquid_stake.u128().saturating_sub(1).max(1));
+        self.flags.dishonest_operator = true;
+        let staker = self.s.staker.clone();
+        let have = self.w.chain.nbal(&staker, D);
+        if have < short {
+            self.w.native_faucet(&staker, D, short - have);
+        }
+        let ch = self.s.channel.clone();
+        self.w.hook(&staker, &ch, CHAIN_PREFIX, D, D, short, &format!("unstaked {}", sb.id));
+        self.w.tick(1_000_000_000);
+        self.w.exec(Some(6), &b, vec![], &format!("withdraw {}", sb.id));
+        self.w.exec(Some(7), &b, vec![], &format!("withdraw {}", sb.id));
+        self.w.exec(Some(8), &a, vec![], &format!("withdraw {}", sb.id));
+        self.w.exec(Some(9), &b, vec![], &format!("withdraw {}", sb.id));
+    }
+
+    /// A store with several hundred batches and tracked transfers (far more than any page size a test would use), then
+    /// the list queries without a limit, with limits around the sizes, and a pager that walks the whole table.
+    pub fn scripted_bulk(&mut self, n_batches: u64, n_packets: u64) {
+        let admin = self.s.admin.clone();
+        let u = self.s.users[0].clone();
+        let lst = self.s.lst();
+        self.w.tick(1_000_000_000);
+        self.w.exec(None, &admin, vec![], "updcfg - - - - 30");
+        self.w.faucet(&u, D, 10_000_000_000);
+        self.w.tick(1_000_000_000);
+        self.w.exec(Some(1), &u, vec![Coin::new(5_000_000_000u128, D)], "stake - - -");
+        // many tracked transfers: small stakes whose packets are never relayed
+        for k in 0..n_packets {
+            self.w.tick(1_000_000);
+            self.w.exec(Some((k % 40) as u32), &u, vec![Coin::new(1000u128 + k as u128, D)], "stake - - -");
+        }
+        // many batches: unstake a little, wait out the period, submit
+        for _ in 0..n_batches {
+            self.w.tick(1_000_000);
+            self.w.exec(Some(2), &u, vec![Coin::new(7u128, lst.clone())], "unstake");
+            self.w.tick(31_000_000_000);
+            self.w.exec(Some(3), &u, vec![], "submit");
+        }
+        let v = view(&self.w.sim);
+        let nb = v.pending;
+        let ops = &mut self.w.ops;
+        for st in ["-", "submitted", "pending"] {
+            for lim in ["-".to_string(), "255".into(), "256".into(), "257".into(), (nb - 1).to_string(), nb.to_string(), (nb + 5).to_string()] {
+                ops.push(format!("query batches - {} {}", lim, st));
+                ops.push(format!("query batches 10 {} {}", lim, st));
+            }
+        }
+        for lim in ["-".to_string(), "256".into(), "257".into(), "280".into(), "100000".into()] {
+            ops.push(format!("query ibcq - {}", lim));
+            ops.push(format!("query ibcq 7 {}", lim));
+        }
+        // a pager with a page size above the sizes a test would use
+        let mut cur = "-".to_string();
+        for page in 0..4u64 {
+            ops.push(format!("query batches {} 280 -", cur));
+            cur = (280 * (page + 1)).to_string();
         }
     }
 
